@@ -25,11 +25,11 @@ theorem reestablish_always_guarded :
 condition text; both spellings occur) and there are exactly five such statements -/
 theorem reestablish_sites :
     (goStmts.filter (·.call = "c.reestablishRegion")).map (fun g => (g.fn, g.guard)) =
-      [("client.getRegionAndClientForRPC", "reg.MarkUnavailable()"),
+      [("client.clientDown", "reg.MarkUnavailable()"),
+       ("client.clientDown", "downreg.MarkUnavailable()"),
+       ("client.getRegionAndClientForRPC", "reg.MarkUnavailable()"),
        ("client.handleResultError", "reg.MarkUnavailable()"),
-       ("client.handleResultError", "reg.MarkUnavailable()"),
-       ("client.clientDown", "reg.MarkUnavailable()"),
-       ("client.clientDown", "downreg.MarkUnavailable()")] := by decide
+       ("client.handleResultError", "reg.MarkUnavailable()")] := by decide
 
 /-- The only unguarded starts of an establisher are the two `go c.establishRegion(reg, addr)` of
 `findRegion` / `findAllRegions`, which act on the fresh object they have just marked unavailable
@@ -37,8 +37,8 @@ theorem reestablish_sites :
 theorem establish_unguarded_only_fresh :
     (goStmts.filter (fun g => g.call = "c.establishRegion" || g.call = "c.reestablishRegion")).filter
         (·.guard = "") =
-      [⟨"rpc.go", "client.findAllRegions", "c.establishRegion", ""⟩,
-       ⟨"rpc.go", "client.findRegion", "c.establishRegion", ""⟩] := by decide
+      [⟨"gohbase", "client.findAllRegions", "c.establishRegion", ""⟩,
+       ⟨"gohbase", "client.findRegion", "c.establishRegion", ""⟩] := by decide
 
 /-- The establisher's back-off sleep watches the *region's* context (so it ends early exactly when
 the region is dead — model: `estSleep … err` needs `dead`), and `reestablishRegion` looks at
@@ -50,7 +50,7 @@ theorem establisher_waits_in_source :
 
 example : (goStmts.filter (·.call = "c.reestablishRegion")).length = 5 := by decide
 /-- negative: an unguarded `go c.reestablishRegion` would be rejected -/
-example : ¬ (∀ g ∈ (⟨"rpc.go", "client.x", "c.reestablishRegion", ""⟩ :: goStmts),
+example : ¬ (∀ g ∈ (⟨"gohbase", "client.x", "c.reestablishRegion", ""⟩ :: goStmts),
     g.call = "c.reestablishRegion" →
       (g.guard = "reg.MarkUnavailable()" ∨ g.guard = "downreg.MarkUnavailable()")) := by decide
 
